@@ -8,7 +8,7 @@ use crate::refcobs;
 use crate::refcodec::{classify, ref_decode, DecErr};
 use crate::runner::{clear_pending, fail, hex, no_panic, set_pending, CaseResult, Ctx, Local};
 use proptest::prelude::*;
-use serde_json::Value as Json;
+use serde_json::{json, Value as Json};
 use std::cell::RefCell;
 
 thread_local! {
@@ -125,7 +125,60 @@ fn judge(
     }
 }
 
+// ---- concrete (zero-sized and tiny) target types: the COBS entry points behave as plain decoding of the decoded payload
+
+#[derive(serde::Serialize, serde::Deserialize, Debug, PartialEq, Clone, Copy)]
+enum OnlyOne {
+    Reset,
+}
+#[derive(serde::Serialize, serde::Deserialize, Debug, PartialEq)]
+struct Marker;
+#[derive(serde::Serialize, serde::Deserialize, Debug, PartialEq)]
+struct Wrap(OnlyOne, std::marker::PhantomData<u32>);
+
+fn real_case<T: serde::de::DeserializeOwned + std::fmt::Debug + PartialEq>(name: &str, input: &[u8], l: &mut Local) -> CaseResult {
+    let cj = || json!({"real_cobs_type": name, "input": hex(input)});
+    let frame = refcobs::decode_first_frame(input);
+    l.eval();
+    let mut a = input.to_vec();
+    let got = no_panic(|| postcard::from_bytes_cobs::<T>(&mut a)).map_err(|p| fail("cobs-decode", format!("from_bytes_cobs::<{}> panicked: {}", name, p), cj()))?;
+    let mut b = input.to_vec();
+    let got_take = no_panic(|| postcard::take_from_bytes_cobs::<T>(&mut b).map(|(v, rest)| (v, rest.len())))
+        .map_err(|p| fail("cobs-decode", format!("take_from_bytes_cobs::<{}> panicked: {}", name, p), cj()))?;
+    let want: Option<Result<T, postcard::Error>> = frame.payload.as_ref().map(|p| postcard::from_bytes::<T>(p));
+    let ok = match (&want, &got, &got_take) {
+        (None, Err(postcard::Error::DeserializeBadEncoding), Err(postcard::Error::DeserializeBadEncoding)) => true,
+        (Some(Ok(v)), Ok(g), Ok((g2, rest))) => v == g && v == g2 && *rest == input.len() - frame.frame_end,
+        (Some(Err(_)), Err(_), Err(_)) => true,
+        _ => false,
+    };
+    if !ok {
+        return Err(fail(
+            "cobs-decode",
+            format!("{}: from_bytes_cobs gave {:?}, take_from_bytes_cobs {:?}; plain decoding of the COBS-decoded first frame gives {:?}; input {}", name, got, got_take, want, hex(input)),
+            cj(),
+        ));
+    }
+    l.class("real-tiny-type");
+    Ok(())
+}
+
+fn real_cases(input: &[u8], l: &mut Local) -> CaseResult {
+    real_case::<OnlyOne>("OnlyOne", input, l)?;
+    real_case::<Marker>("Marker", input, l)?;
+    real_case::<()>("()", input, l)?;
+    real_case::<[OnlyOne; 2]>("[OnlyOne; 2]", input, l)?;
+    real_case::<Wrap>("Wrap", input, l)?;
+    real_case::<(OnlyOne, u8)>("(OnlyOne, u8)", input, l)?;
+    real_case::<Option<OnlyOne>>("Option<OnlyOne>", input, l)?;
+    real_case::<[u8; 0]>("[u8; 0]", input, l)?;
+    real_case::<Vec<OnlyOne>>("Vec<OnlyOne>", input, l)
+}
+
 pub fn replay(case: &Json, l: &mut Local) -> CaseResult {
+    if case.get("real_cobs_type").is_some() {
+        return real_cases(&crate::runner::unhex(case["input"].as_str().unwrap_or("")), l);
+    }
     let shape = shape_of(case);
     let input = input_of(case);
     check(&shape, &input, true, l)?;
@@ -193,6 +246,17 @@ pub fn run(ctx: &Ctx) {
                 l.nontrivial_enum(1);
             }
             r
+        });
+    }
+    {
+        // concrete tiny / zero-sized targets over every input of {00,01,02,03,FF}^<=6
+        const A5: [u8; 5] = [0x00, 0x01, 0x02, 0x03, 0xFF];
+        let n5 = count_words(5, 6);
+        ctx.par_range("tiny-real-types-exhaustive", n5, move |i, l| {
+            let w = nth_word(i, &A5);
+            real_cases(&w, l)?;
+            l.nontrivial_enum(1);
+            Ok(())
         });
     }
     ctx.exhausted("all inputs over {00,01,02,03,05,FF} of length <= 7 and over {00,01,02,FF} of length <= 9, for 8 target shapes");
